@@ -72,7 +72,7 @@ Pre(e) ==
   /\ (e.op \in GrantOps => FreshGs(e.gs))
   /\ (e.op \in {"drop", "write"} => (Len(e.gs) = 1 /\ e.gs[1] \in DOMAIN guards))
   /\ (e.op = "write" => guards[e.gs[1]].kind = "w")
-  /\ (e.op = "clone" => (Len(e.gs) >= 1 /\ e.gs[1] \in DOMAIN guards /\ guards[e.gs[1]].kind = "r" /\ FreshGs(Tail(e.gs))))
+  /\ (e.op = "clone" => (Len(e.gs) >= 1 /\ e.gs[1] \in DOMAIN guards /\ guards[e.gs[1]].cl /\ FreshGs(Tail(e.gs))))
   /\ (e.op = "unwind" => (e.gs # <<>> /\ SeqToSet(e.gs) \subseteq DOMAIN guards))
   /\ (e.op \in {"system_data", "meta_iter", "meta_iter_mut", "setup", "exec", "exec_panic"}
         => \A i \in DOMAIN e.shape : e.shape[i].t \in Types)
@@ -162,7 +162,7 @@ ThreadOps == FetchOps \cup {"drop", "clone"}
 TPre(e) == /\ e.op \in ThreadOps /\ par
            /\ (e.op \in FetchOps => (<<e.ty, e.dy>> \in Ids /\ e.targ \in Types))
            /\ (e.op \in {"drop", "clone"} => e.g \in DOMAIN guards)
-           /\ (e.op = "clone" => guards[e.g].kind = "r")
+           /\ (e.op = "clone" => guards[e.g].cl)
 
 TrTCall ==
   /\ Is("tcall")
@@ -210,7 +210,7 @@ TrTRet ==
             IN /\ confs' = {[c EXCEPT !.pend = Del(@, {e.t})] : c \in good}
                /\ ok' = [ok EXCEPT !.c08lin = @ /\ good # {}, !.tool = @ /\ (e.k = "guard" => e.g \notin DOMAIN guards)]
                /\ dead' = (good = {})
-               /\ guards' = IF e.k = "guard" THEN Put(guards, e.g, G(p.id, IF p.op = "clone" THEN "r" ELSE p.mode))
+               /\ guards' = IF e.k = "guard" THEN Put(guards, e.g, G(p.id, IF p.op = "clone" THEN "r" ELSE p.mode, p.op = "clone" \/ p.mode = "r"))
                             ELSE IF p.op = "drop" THEN Del(guards, {p.g})
                             ELSE guards
 
